@@ -515,3 +515,97 @@ func HostileNoti(rng *simrt.Rand, u *Universe, target string, ts int64) *Noti {
 	}
 	return n
 }
+
+// UnusualFeatures names what is unusual about a (protobuf-valid) notification
+// a peer sent; used to count hostile-peer faults per kind in the evidence.
+func UnusualFeatures(n *pb.Notification) []string {
+	var out []string
+	add := func(s string) {
+		for _, o := range out {
+			if o == s {
+				return
+			}
+		}
+		out = append(out, s)
+	}
+	if n == nil {
+		return []string{"nil-notification"}
+	}
+	if n.Prefix == nil {
+		add("nil-prefix")
+	}
+	path := func(p *pb.Path, what string) {
+		if p == nil {
+			add("nil-" + what)
+			return
+		}
+		if len(p.Element) > 0 { //nolint:staticcheck // deprecated encoding on purpose
+			add("deprecated-" + what + "-elements")
+		}
+		for _, e := range p.Elem {
+			if e == nil {
+				add("nil-path-elem")
+				continue
+			}
+			if e.Name == "" {
+				add("empty-elem-name")
+			}
+			for k, v := range e.Key {
+				if k == "" || v == "" {
+					add("empty-key-or-value")
+				}
+			}
+		}
+	}
+	if n.Prefix != nil {
+		path(n.Prefix, "prefix")
+	}
+	full := func(p *pb.Path) []string {
+		var s []string
+		for _, q := range []*pb.Path{n.Prefix, p} {
+			for _, e := range q.GetElem() {
+				if e == nil {
+					return []string{"?"}
+				}
+			}
+			s = append(s, Index(q)...)
+		}
+		return s
+	}
+	for _, u := range n.Update {
+		if u == nil {
+			add("nil-update")
+			continue
+		}
+		path(u.Path, "path")
+		if u.Val == nil {
+			if u.Value != nil { //nolint:staticcheck
+				add("deprecated-value-encoding")
+			} else {
+				add("missing-value")
+			}
+		} else if u.Val.Value == nil {
+			add("empty-typed-value")
+		}
+		if fp := full(u.Path); len(fp) == 0 {
+			add("empty-full-path")
+		} else if fp[0] == "meta" {
+			add("metadata-subtree-path")
+		}
+	}
+	for _, d := range n.Delete {
+		path(d, "delete-path")
+		if fp := full(d); len(fp) == 0 {
+			add("empty-delete-path")
+		} else if fp[0] == "meta" {
+			add("metadata-subtree-delete")
+		}
+	}
+	if len(n.Update) == 0 && len(n.Delete) == 0 {
+		add("empty-notification")
+	}
+	if n.Atomic && len(n.Update) == 0 {
+		add("atomic-without-updates")
+	}
+	return out
+}
